@@ -468,7 +468,9 @@ class Parser:
                             msg = "{} found while {} expected near '{}'".format(
                                 ttype,
                                 "|".join(self.__expected),
-                                text.decode()[self.lexer.pos],
+                                text[self.lexer.pos : self.lexer.pos + 1].decode(
+                                    "utf-8", "replace"
+                                ),
                             )
                         else:
                             msg = "%s found while %s expected at end of file" % (
@@ -480,8 +482,10 @@ class Parser:
 
                 if not self.__command(ttype, tvalue):
                     msg = "unexpected token '%s' found near '%s'" % (
-                        tvalue.decode(),
-                        text.decode()[self.lexer.pos],
+                        tvalue.decode("utf-8", "replace"),
+                        text[self.lexer.pos : self.lexer.pos + 1].decode(
+                            "utf-8", "replace"
+                        ),
                     )
                     raise ParseError(msg)
             if self.__expected_brackets:
@@ -492,7 +496,7 @@ class Parser:
                     % "|".join(self.__expected)
                 )
 
-        except (ParseError, CommandError) as e:
+        except (ParseError, CommandError, UnicodeDecodeError) as e:
             self.error_pos = (
                 self.lexer.curlineno(),
                 self.lexer.curcolno(),
